@@ -212,8 +212,8 @@ func anyErr(cs []*memfs.Call) bool {
 
 func (s *stepper) tail() []string {
 	t := s.trace
-	if len(t) > 14 {
-		t = t[len(t)-14:]
+	if len(t) > 600 {
+		t = t[len(t)-600:]
 	}
 	return append([]string(nil), t...)
 }
@@ -232,6 +232,9 @@ func (s *stepper) probe(maxfid uint64, identity bool) {
 				return
 			}
 			det := map[string]any{"probe": fmt.Sprintf("c%d Tgetattr fid=%d", conn, fid), "reply": res.Msg.String(), "trace": s.tail(), "model_state": s.w.Key()}
+			if s.quiet {
+				continue // generation / lifecycle mode: the probe only exercises the fid
+			}
 			if f == nil {
 				if res.Errno() != EBADF {
 					s.c.Violation(s.prop+":fid-bound-though-model-says-unbound", det)
